@@ -62,6 +62,27 @@ def conc(v, m, depth=0, seen=None):
         from . import sdict
 
         return sdict.concretize(v, m, lambda x: conc(x, m, depth + 1, seen))
+    if type(v).__name__ == "SMap":
+        live = getattr(v, "live", v)
+        items = []
+        for kt, val in live.entry_slots:
+            if z3.is_true(_ev(m, z3.Select(live.base_has, kt))):
+                items.append([_ev(m, kt).as_long(), conc(val, m, depth + 1, seen)])
+        if getattr(live, "order_hint", None) == "rest-first":
+            items.reverse()
+        return {"__dict__": items, "map": live.name}
+    if type(v).__name__ == "SColl":
+        live = getattr(v, "live", v)
+        out = []
+        for p, x in v.members:
+            pv = p if isinstance(p, bool) else z3.is_true(_ev(m, p))
+            if pv:
+                out.append(conc(x, m, depth + 1, seen))
+        for x in live.entry_members:
+            out.append(conc(x, m, depth + 1, seen))
+        if getattr(live, "order_hint", None) == "rest-first":
+            out.reverse()
+        return out
     if isinstance(v, Sym):
         return f"<{type(v).__name__}>"
     if isinstance(v, enum.Enum):
